@@ -125,6 +125,16 @@ pub fn cases(tier: &str, _seed: u64) -> Vec<Case> {
             v.push(c);
         }
     }
+    // many short labels: 120..140 one-character labels (127 of them are 255 octets, the most a name can hold), with the
+    // last few labels longer, and with a trailing dot
+    for n in 120..=140usize {
+        let base = vec!["a"; n].join(".");
+        v.push(new_case(&base, "many-labels"));
+        v.push(new_case(&format!("{}.", base), "many-labels"));
+        v.push(new_case(&format!("{}.bc", base), "many-labels"));
+        v.push(new_case(&format!("xyz.{}", base), "many-labels"));
+        v.push(new_case(&format!("{}.-", base), "many-labels"));
+    }
     // encoded name lengths 245..262 in several shapes
     for total in 245..=262usize {
         for first in [1usize, 30, 63] {
